@@ -37,8 +37,9 @@ def run(chk):
     chk.absorb(vlib.run_sharded(asan, 40000 if T else 4000, chk.seed, chk.tier, ['--mode', 'pairs'], tag='c18h'), 'location-pairs(asan)')
     chk.assumptions = [
         'tile clauses (range, never decreasing east/south, nesting) are judged for every valid Location including +-180 and +-90 and zoom 0..Tile::max_zoom',
-        'round trip, strict monotonicity and agreement with the canonical formulas are judged on the documented domain of lonlat_to_mercator '
-        '(|lat| <= MERCATOR_MAX_LAT = 85.0511288, lon in [-180, 180]); outside of it they are evaluated and counted, not judged',
+        'round trip and strict monotonicity are judged for every latitude in [-90, 90] and every longitude in [-180, 180] (as the property states them; at the south pole '
+        'y = -inf, which round-trips and is strictly below every finite y); agreement with the canonical long-double formulas is judged on the documented domain of '
+        'lonlat_to_mercator (|lat| <= MERCATOR_MAX_LAT = 85.0511288) only',
         'fast formula vs. tangent formula (1 cm, 1/4 step) is judged for every latitude in [-90, 90]; identical results (also identical infinities) count as within; '
         'local step = larger of the two differences of lat_to_y_with_tan to the neighbouring fixed-point latitudes',
         'reference for "canonical": R*ln(tan(pi/4+lat/2)) and R*lon in long double, tolerance 0.1 mm; which tile a location falls into is not part of the '
